@@ -63,6 +63,7 @@ ${loop.index}${loop.parent.index}\\
 o${loop.index}\\
 % endfor
 b</%def>
+<%def name="s_bufblock()">a<%block buffered="True">k[${probe(19)}]</%block>b</%def>
 <%def name="s_pydef()">a<%call expr="pydef(context)">c${probe(18)}</%call>b</%def>
 <%def name="who()">${caller.body() if caller else 'none'}</%def>
 '''
@@ -93,6 +94,7 @@ SITES = {
     "s_block": ("aK[#12#]b", {12: "a"}),
     "s_callargs": ("aA[r#13#]b", {13: "aA["}),
     "s_nscall": ("aW[#4#n#14#z#5#]b".replace("z", ""), {4: "aW[", 14: "aW[#4#n", 5: "aW[#4#n#14#"}),
+    "s_bufblock": ("ak[#19#]b", {19: "a"}),
     "s_pydef": ("aY[#16#c#18##17#]b", {16: "aY[", 18: "aY[#16#c", 17: "aY[#16#c#18#"}),
     "s_loopiter": ("a000o0100o1b".replace("000o0100o1", "0" + "00" + "o0" + "1" + "01" + "o1"), {(15, 1): "a0", (15, 2): "a000o01"}),
 }
